@@ -322,12 +322,12 @@ Section Exec.
   Definition sum_get (k : bytes) (m : alist bytes) : bytes :=
     match lookup k m with Some v => v | None => [] end.
 
-  (* --- context.go:131-141 --- *)
+  (* --- context.go:131-142 (an empty current hash = the directory could not be hashed: never cached) --- *)
   Definition pkg_changed (a : args) (prev : option (alist bytes)) (cur : alist bytes) (k : bytes) : bool :=
     if a_force a then true
     else match prev with
          | None => true
-         | Some pv => negb (bytes_eqb (sum_get k pv) (sum_get k cur))
+         | Some pv => is_nil (sum_get k cur) || negb (bytes_eqb (sum_get k pv) (sum_get k cur))
          end.
 
   (* --- context.go:108-116 --- *)
